@@ -24,6 +24,8 @@
 #include <sstream>
 #include <fstream>
 #include <vector>
+#include <deque>
+#include <memory>
 #include <string>
 #include <map>
 #include <functional>
@@ -396,9 +398,16 @@ static int base_of(std::ios_base::fmtflags f)
 template<class F>
 static PrintResult run_print(const Lexicon& lex, bool loc, int base, int fill, int width, F body)
 {
-   std::ostringstream ss;
+   // Every print gets a FRESH printer on a FRESH stream, both at addresses different from those of the previous prints (they stay
+   // alive in a ring of 256): text must not depend on which printer object or which stream printed earlier.
+   struct Session { std::ostringstream ss; std::unique_ptr<Printer> pp; };
+   static std::deque<std::unique_ptr<Session>> ring;
+   ring.push_back(std::make_unique<Session>());
+   if (ring.size() > 256) ring.pop_front();
+   std::ostringstream& ss = ring.back()->ss;
    setup_stream(ss, base, fill, width);
-   Printer pp{lex, ss};
+   ring.back()->pp = std::make_unique<Printer>(lex, ss);
+   Printer& pp = *ring.back()->pp;
    pp.print_locations = loc;
    auto f0 = ss.flags(); auto fill0 = ss.fill(); auto prec0 = ss.precision();
    std::string status = "ok";
